@@ -357,10 +357,11 @@ def wrapper_func(*args, **kwargs):
 
 def param_formatter(res, model, rule="R-SHAPE"):
     """float_param_formatter's wrapper (shape rule; the accumulation of a tuple of piecewise conversions is outside the
-    evaluator's language): the wrapped operation is called exactly once, unconditionally, with a starred positional
-    block and the keyword block; the positional block is built ONLY by appending `object_to_decimal(<loop variable over
-    args>)`, every keyword value is replaced by `object_to_decimal(value)`; the call's result is returned; nothing else is
-    called and nothing else is stored."""
+    evaluator's language).  On every path the wrapped operation is called exactly once and its result returned; the
+    positional block it receives is built only from `object_to_decimal(<each positional argument>)`, the keyword block is
+    the wrapper's own keyword dict with every value replaced by `object_to_decimal(value)` (in place or as a new dict
+    built by a comprehension over `.items()`); the only case distinction allowed is `if not kwargs` (no keyword block to
+    pass); nothing else is called, nothing is rounded, dropped or reordered."""
     import ast as _ast
     from ..model import AnalysisError
     wf = model.func("utils.application.float_param_formatter")
@@ -374,24 +375,51 @@ def param_formatter(res, model, rule="R-SHAPE"):
     fcalls = [c for c in calls if isinstance(c.func, _ast.Name) and c.func.id == fn]
     conv = [c for c in calls if isinstance(c.func, _ast.Name) and c.func.id == "object_to_decimal"]
     other = [c for c in calls if c not in fcalls and c not in conv and not (isinstance(c.func, _ast.Attribute) and c.func.attr in ("items", "keys"))
-             and not (isinstance(c.func, _ast.Name) and c.func.id in ("tuple", "list"))]
-    if len(fcalls) != 1:
-        problems.append(f"the wrapped function is called {len(fcalls)} times")
-    else:
-        c = fcalls[0]
+             and not (isinstance(c.func, _ast.Name) and c.func.id in ("tuple", "list", "dict"))]
+
+    def only_if_no_kwargs(node):
+        """Is `node` inside the true arm of `if not <kwargs>`?"""
+        p, child = getattr(node, "_parent", None), node
+        while p is not None and p is not w:
+            if isinstance(p, _ast.If) and isinstance(p.test, _ast.UnaryOp) and isinstance(p.test.op, _ast.Not) \
+                    and isinstance(p.test.operand, _ast.Name) and p.test.operand.id == kw and child in p.body:
+                return True
+            child, p = p, getattr(p, "_parent", None)
+        return False
+
+    # names that hold the converted keyword block: the wrapper's own dict, or a dict built over its items with converted values
+    kw_names = {kw}
+    for st in _ast.walk(w):
+        if isinstance(st, _ast.Assign) and len(st.targets) == 1 and isinstance(st.targets[0], _ast.Name) and isinstance(st.value, _ast.DictComp):
+            dc = st.value
+            if len(dc.generators) == 1 and _ast.unparse(dc.generators[0].iter) == f"{kw}.items()" and not dc.generators[0].ifs \
+                    and isinstance(dc.value, _ast.Call) and dc.value in conv and isinstance(dc.key, _ast.Name):
+                kw_names.add(st.targets[0].id)
+    if not fcalls:
+        problems.append("the wrapped function is never called")
+    for c in fcalls:
         star = [a for a in c.args if isinstance(a, _ast.Starred)]
-        if len(c.args) != 1 or len(star) != 1 or not any(k.arg is None and isinstance(k.value, _ast.Name) and k.value.id == kw for k in c.keywords) \
-                or any(k.arg is not None for k in c.keywords):
+        has_kw = any(k.arg is None and isinstance(k.value, _ast.Name) and k.value.id in kw_names for k in c.keywords)
+        if len(c.args) != 1 or len(star) != 1 or any(k.arg is not None for k in c.keywords) or len(c.keywords) > 1:
             problems.append("the wrapped function is not called as func(*converted, **kwargs)")
+        elif not has_kw and not (not c.keywords and only_if_no_kwargs(c)):
+            problems.append("the keyword block is not passed on (outside `if not kwargs`)")
         par = getattr(c, "_parent", None)
         if not isinstance(par, _ast.Return):
             problems.append("the result of the wrapped function is not returned as it is")
         p = par
         while p is not None and p is not w:
-            if isinstance(p, (_ast.If, _ast.For, _ast.While, _ast.Try, _ast.With)):
-                problems.append("the call of the wrapped function is conditional / inside a loop or handler")
+            if isinstance(p, (_ast.For, _ast.While, _ast.Try, _ast.With)):
+                problems.append("the call of the wrapped function is inside a loop or handler")
                 break
             p = getattr(p, "_parent", None)
+    # exactly one call per path: the last statement of the wrapper returns a call, every other call sits in an `if not kwargs` arm
+    last = w.body[-1] if w.body else None
+    if not (isinstance(last, _ast.Return) and last.value in fcalls):
+        problems.append("the normal path does not end in `return func(...)`")
+    for c in fcalls:
+        if c is not getattr(last, "value", None) and not only_if_no_kwargs(c):
+            problems.append("a second call of the wrapped function outside `if not kwargs`")
     if len(conv) < 2:
         problems.append("not both argument blocks are converted by object_to_decimal")
     for c in conv:
@@ -405,10 +433,15 @@ def param_formatter(res, model, rule="R-SHAPE"):
     its = {_ast.unparse(l.iter) for l in _ast.walk(w) if isinstance(l, (_ast.For, _ast.comprehension))}
     if not ({va} & its) or not ({f"{kw}.items()", kw, f"{kw}.keys()"} & its):
         problems.append("the conversion does not loop over all positional and all keyword arguments")
-    if any(isinstance(n, (_ast.If, _ast.IfExp, _ast.Break, _ast.Continue)) for n in _ast.walk(w)):
-        problems.append("the wrapper distinguishes cases (some arguments could be skipped)")
+    for n in _ast.walk(w):
+        if isinstance(n, (_ast.IfExp, _ast.Break, _ast.Continue)) or (isinstance(n, _ast.comprehension) and n.ifs):
+            problems.append("the wrapper distinguishes cases (some arguments could be skipped)")
+        if isinstance(n, _ast.If) and not (isinstance(n.test, _ast.UnaryOp) and isinstance(n.test.op, _ast.Not)
+                                           and isinstance(n.test.operand, _ast.Name) and n.test.operand.id == kw and not n.orelse):
+            problems.append(f"the wrapper distinguishes cases on `{_ast.unparse(n.test)[:40]}`")
+    problems = sorted(set(problems))
     ok = not problems
-    res.ob(rule, "float_param_formatter: one unconditional call of the wrapped operation with every argument coerced by object_to_decimal",
+    res.ob(rule, "float_param_formatter: one call of the wrapped operation per path with every argument coerced by object_to_decimal",
            wf.loc(), ok=ok, detail="; ".join(problems)[:300])
     if not ok:
         res.find(rule, "utils.application.float_param_formatter", "argument formatter is not the plain coercion of every argument", wf.loc(),
